@@ -21,7 +21,7 @@ use rustc_middle::mir::{
     AggregateKind, BasicBlockData, Body, CastKind, Const, ConstValue, Operand, Place, PlaceElem,
     Rvalue, StatementKind, TerminatorKind,
 };
-use rustc_middle::ty::{self, Ty, TyCtxt};
+use rustc_middle::ty::{self, Ty, TyCtxt, TypeVisitableExt};
 use rustc_span::Span;
 use std::fmt::Write as _;
 
@@ -543,6 +543,16 @@ fn const_j<'tcx>(tcx: TyCtxt<'tcx>, owner: DefId, c: &Const<'tcx>) -> J {
             if let Some(b) = alloc_bytes(tcx, prov.alloc_id(), off.bytes()) {
                 o.set("mem", b);
             }
+            // address of a static / function
+            match tcx.try_get_global_alloc(prov.alloc_id()) {
+                Some(rustc_middle::mir::interpret::GlobalAlloc::Static(did)) => {
+                    o.set("static", J::s(&path_s(tcx, did)));
+                }
+                Some(rustc_middle::mir::interpret::GlobalAlloc::Function { instance }) => {
+                    o.set("fnaddr", J::s(&path_s(tcx, instance.def_id())));
+                }
+                _ => {}
+            }
         }
     }
     o
@@ -985,6 +995,19 @@ fn call_common<'tcx>(
                     let rd = inst.def_id();
                     t.set("resolved", J::s(&path_s(tcx, rd)));
                     t.set("resolved_kind", J::s(instance_kind(&inst)));
+                }
+            }
+            // size_of::<T>() / align_of::<T>() with a concrete T: record the value
+            let cname = path_s(tcx, *did);
+            if (cname == "core::mem::size_of" || cname == "core::mem::align_of") && gargs.len() == 1 {
+                if let Some(t0) = gargs[0].as_type() {
+                    if !t0.has_param() {
+                        let env2 = ty::TypingEnv::post_analysis(tcx, owner);
+                        if let Ok(layout) = tcx.layout_of(env2.as_query_input(t0)) {
+                            let v = if cname.ends_with("size_of") { layout.size.bytes() } else { layout.align.abi.bytes() };
+                            t.set("const_result", J::n(v as i128));
+                        }
+                    }
                 }
             }
             // does the callee diverge?
